@@ -30,3 +30,13 @@ func VT_C12_ReplaceEmptyName() {
 	replaceEmptyNameField(nil, def)
 	vt.Reach("done")
 }
+
+// Names that are not empty but consist of white space (or merely contain it) are names: they are kept.
+func VT_C12_WhitespaceNamesKept() {
+	names := []string{" ", "\t\n", " ", " x ", "x y"}
+	reqName := names[vt.Choose("name", len(names))]
+	req := &traits.GetOnOffRequest{Name: reqName}
+	replaceEmptyNameField(req, "the-default")
+	vt.Assert(req.Name == reqName, "non-empty-name-kept-even-when-it-is-white-space")
+	vt.Reach("done")
+}
